@@ -260,6 +260,8 @@ def fam_inline(rng, n):
     for i in range(n):
         d = {"a": rng.choice(NOBIG), "b": rng.choice(NOBIG), "k": rng.choice(SCALARS)}
         c1, c2 = rng.choice(calls) % d, rng.choice(calls) % d
+        hide = lambda c: re.sub(r"\b(add|pair|first|bad|is_str|dflt|nested|effect|cond|typed|const|empty)\(", r"<<\1>>(", c)   # noqa: E731
+        c1, c2 = hide(c1), hide(c2)
         lib = HELP_T + helpers % d
         caller = ("def caller(p, q, flag):\n    if flag:\n        z = <<5>>\n    emit(\"in\")\n    r = %s\n    emit(r)\n    return %s\n" % (c1, c2))
         body = "emit(caller(<<%(a)s>>, <<%(b)s>>, <<True>>))\nemit(caller(<<%(b)s>>, <<%(a)s>>, <<False>>))\n" % d
@@ -536,8 +538,8 @@ def whitebox(ctx, n, fixed=None):
     for _ in range(n if fixed is None else 0):
         op = ctx.rng.choice(WB_OPS)
         a, b = ctx.rng.choice(WB_VALS), ctx.rng.choice(WB_VALS)
-        if op[0] == "<<" and b > 64:
-            b = b % 65
+        if op[0] in ("<<", ">>") and abs(b) > 64:
+            b = b % 65          # Z.shiftl / Z.shiftr iterate |b| times in the model: no astronomically large shift counts
         cases_.append((op, a, b))
     for (sym, a, b) in fixed or []:
         cases_.append(([o for o in WB_OPS if o[0] == sym][0], a, b))
@@ -601,8 +603,8 @@ def evaluate(ctx, groups, do_shrink=True):
 
 
 def correspond(ctx):
-    scale = ctx.n(40, 900)
-    groups, agg = build_groups(ctx, scale, ctx.n(150, 4000))
+    scale = ctx.n(150, 900)
+    groups, agg = build_groups(ctx, scale, ctx.n(600, 4000))
     fails, stats, sigs = evaluate(ctx, groups)
     ctx.log("groups=%d runs=%d pairs=%d equal=%d (failing outcomes %d) invalid=%d skipped(frozen mutation)=%d differing=%s"
             % (len(groups), stats["runs"], stats["pairs"], stats["equal"], stats["equal_failing"], stats["invalid"],
